@@ -137,9 +137,23 @@ def run(ck):
            ("foreach-single", PRE + "foreach i = [0, 1] in\n@\n"), ("if-then", PRE + "if 1 then {\n@\n}\n"), ("if-else", PRE + "if 1 then def t; else {\n@\n}\n"),
            ("defset", PRE + "defset list<A0> S = {\n@\n}\n"), ("foreach-in-let", PRE + "let f = 1 in { foreach i = [0] in {\n@\n} }\n"),
            ("after-statement", PRE + "def before;\n@\ndef after;\n")]
+    # positions right behind a statement that may or may not be continued (an `if` in every shape of its else branch, blocks of the
+    # other containers): a keyword that continues the statement before it is an offer like any other and must be accepted THERE
+    POS += [("after-if-without-else", PRE + "if 1 then { def t; }\n@\n"), ("after-if-with-else", PRE + "if 1 then { def t; } else { def u; }\n@\n"),
+            ("after-else-if", PRE + "if 1 then { def t; } else if 0 then { def u; }\n@\n"), ("after-else-if-else", PRE + "if 1 then { def t; } else if 0 then { def u; } else { def w; }\n@\n"),
+            ("after-else-block-ending-in-if", PRE + "if 1 then { def t; } else { if 0 then { def u; } }\n@\n"),
+            ("after-else-block-ending-in-single-if", PRE + "if 1 then { def t; } else {\n  def b;\n  if 0 then def c;\n}\n@\ndef D;\n"),
+            ("after-then-block-ending-in-if", PRE + "if 1 then { if 0 then { def u; } }\n@\n"),
+            ("after-single-then-single-else", PRE + "if 1 then def t; else def u;\n@\n"), ("after-dangling-else", PRE + "if 1 then if 0 then def x; else def y;\n@\n"),
+            ("after-nested-if-in-foreach", PRE + "foreach i = [1] in { if i then { def t; } else { if 0 then { def u; } } @ }\n"),
+            ("after-if-in-let", PRE + "let f = 1 in { if 1 then { def t; } @ }\n"),
+            ("after-foreach-block", PRE + "foreach i = [1] in { def t; }\n@\n"), ("after-let-block", PRE + "let f = 1 in { def t; }\n@\n"),
+            ("after-defset", PRE + "defset list<A0> S = { }\n@\n"), ("after-multiclass", PRE + "multiclass M1 { def z; }\n@\n"), ("after-class-body", PRE + "class K1 { }\n@\n"),
+            ("after-foreach-with-if", PRE + "foreach i = [1] in if i then def t;\n@\n")]
+    SAMPLE["else"] = "else { def e9; }"
     plines = []
     for name, tpl in POS:
-        text = tpl.replace("@", "de")
+        text = tpl.replace("@", "e" if name.startswith("after-") and name != "after-statement" else "de")
         plines.append(ws({"/main.td": text}, "/main.td", [["completion", "/main.td", len(tpl[: tpl.index("@")].encode()) + 1, None]]))
     pouts = core.impl(plines, tag="kwpos")
     ptexts = []
@@ -150,8 +164,10 @@ def run(ck):
             items = []
         for it in items:
             w_ = it[0]
-            if it[2] == "Keyword" and w_ in SAMPLE:
-                ptexts.append((name, w_, tpl.replace("@", SAMPLE[w_])))
+            if it[2] == "Keyword":
+                # (a keyword that is not a statement keyword has no sample: offered at a statement position it is followed by a plain
+                # statement, which the parser accepts only if the keyword alone was acceptable there)
+                ptexts.append((name, w_, tpl.replace("@", SAMPLE.get(w_, w_ + " def k9;"))))
     ppa, ppb = core.compare(ck, "statements_in_position", [x[2] for x in ptexts], lambda s_: "parse %s" % hexs(s_))
     for (name, w_, text), r in zip(ptexts, ppa):
         if not r.endswith("errs="):
